@@ -314,6 +314,7 @@ func runC05(c *Ctx) {
 	c.rule("R-CMP-SIGN", 1, "every test of a comparison function's result against a constant is a test of its sign only")
 	c.rule("R-REORDER-INSTALLS", 1, "Reorder stores its argument as the current comparison on every path")
 	c.rule("R-SORT-INPLACE", 1, "no function reachable from Sort replaces the queue's buffer by anything but a re-slice of itself")
+	c.rule("R-LEN-EFFECT", 3, "every path through a Queue method that rewrites the buffer leaves its length at L0+1 (Add), L0−1 (Pop, Remove), 0 (Clear), len(vs) (Set) or unchanged")
 	c.rule("R-SORT-SHORTCUT", 0, "a sortedness shortcut in Sort uses the caller's comparison (no instance on the unchanged tree; the seeded change C05-sort-early-return-reversed-cmp is the positive example)")
 	c.rule("R-POP-CONSERVES", 1, "the removal helper writes the tail element into slot i before cutting the tail slot off (except when the heap has one element or i is the tail)")
 	c.rule("R-SET-REPLACES", 2, "Set resizes the buffer to len(vs) and copies vs in on every path (contents are what was put in)")
@@ -760,6 +761,10 @@ func runC05(c *Ctx) {
 		}
 		c.judge(len(bad) == 0, "R-SORT-INPLACE", "heapq.Sort:buffer stays the argument", sortFn.Pos(), fmt.Sprintf("%d buffer updates reachable from Sort, all re-slices of the same buffer", n), "Sort relies on the queue living in its argument, but a function it reaches replaces the buffer: "+strings.Join(bad, ", ")+" — from then on the sorted elements land in a private copy")
 	}
+	// ---- R-LEN-EFFECT: contents conserved, as far as the number of slots goes
+	ruleLenEffect(c, "R-LEN-EFFECT", "heapq", "Queue", m.dataF, map[string]lform{
+		"Add": latom("L0").add(lconst(1), 1), "Pop": latom("L0").add(lconst(1), -1), "Remove": latom("L0").add(lconst(1), -1),
+		"Clear": lconst(0), "Set": latom("len(p1)")})
 	// ---- R-SORT-SHORTCUT: a sortedness test that lets Sort return early is made with the caller's order
 	if sortFn := P.Func("heapq", "", "Sort"); sortFn != nil && len(sortFn.Params) >= 1 {
 		var userCmp *ssa.Parameter
